@@ -19,7 +19,6 @@ limitations under the License.
 #include <cctype>
 #include <list>
 #include <map>
-#include <regex>
 #include <sstream>
 #include <stack>
 #include <utility>
@@ -201,15 +200,74 @@ std::string removeWhitespaceAroundTags(const std::string &text)
     return res;
 }
 
+std::string removeXmlDeclarations(const std::string &text)
+{
+    // Remove everything that matches "<?xml", some whitespace, "version=" and
+    // then whatever follows on that line up to its last "?>".
+    // Note: this is done by hand rather than using a regular expression since
+    //       the latter uses an amount of stack that grows with the length of
+    //       the line.
+
+    static const std::string declarationStart = "<?xml";
+    static const std::string version = "version=";
+    static const std::string declarationEnd = "?>";
+
+    std::string res;
+    size_t pos = 0;
+    size_t start = text.find(declarationStart, pos);
+
+    while (start != std::string::npos) {
+        size_t i = start + declarationStart.size();
+
+        while ((i < text.size()) && (isspace(static_cast<unsigned char>(text[i])) != 0)) {
+            ++i;
+        }
+
+        size_t end = std::string::npos;
+
+        if ((i > start + declarationStart.size()) && (text.compare(i, version.size(), version) == 0)) {
+            size_t from = i + version.size();
+            size_t lineEnd = text.find_first_of("\n\r", from);
+
+            if (lineEnd == std::string::npos) {
+                lineEnd = text.size();
+            }
+
+            if (lineEnd >= from + declarationEnd.size()) {
+                end = text.rfind(declarationEnd, lineEnd - declarationEnd.size());
+
+                if ((end != std::string::npos) && (end < from)) {
+                    end = std::string::npos;
+                }
+            }
+        }
+
+        if (end != std::string::npos) {
+            res.append(text, pos, start - pos);
+
+            pos = end + declarationEnd.size();
+        } else {
+            res.append(text, pos, start + 1 - pos);
+
+            pos = start + 1;
+        }
+
+        start = text.find(declarationStart, pos);
+    }
+
+    res.append(text, pos, std::string::npos);
+
+    return res;
+}
+
 std::string Printer::PrinterImpl::printMath(const std::string &math)
 {
     static const std::string wrapElementName = "math_wrap_as_single_root_element";
-    static const std::regex xmlDeclaration(R"|(<\?xml[[:space:]]+version=.*\?>)|");
 
     XmlDocPtr xmlDoc = std::make_shared<XmlDoc>();
     xmlKeepBlanksDefault(0);
     // Remove any XML declarations from the string.
-    std::string normalisedMath = std::regex_replace(math, xmlDeclaration, "");
+    std::string normalisedMath = removeXmlDeclarations(math);
     xmlDoc->parse("<" + wrapElementName + ">" + normalisedMath + "</" + wrapElementName + ">");
     if (xmlDoc->xmlErrorCount() == 0) {
         auto rootNode = xmlDoc->rootNode();
